@@ -2,7 +2,7 @@
 From Coq Require Import Floats.
 From EF Require Import Model.Base Gen.Tables Model.Lexer Model.Ast Model.Parser Model.Code Model.Value
                        Model.Compiler Model.Api Proofs.ParserProofs.
-From EF Require Import Gen.Tables Spec.Grammar Spec.Printer Proofs.PrinterProofs.
+From EF Require Import Gen.Tables Spec.Grammar Spec.Printer Spec.Unlex Proofs.PrinterProofs Proofs.TextProofs.
 Open Scope N_scope.
 
 (* Prepare succeeds only if the parser AND the compiler succeed: any recorded error rejects *)
@@ -101,3 +101,18 @@ Theorem C13_parse_show_example :
   parse_tokens PrinterProofs.Demo.pf0 max_depth (show_program PrinterProofs.Demo.demo ++ [eof]) = ParseOk PrinterProofs.Demo.demo /\
   parse_tokens PrinterProofs.Demo.pf0 9 (show_program PrinterProofs.Demo.demo ++ [eof]) = ParseReject.
 Proof. exact (conj PrinterProofs.Demo.demo_printable (conj PrinterProofs.Demo.demo_roundtrip PrinterProofs.Demo.demo_depth_tight)). Qed.
+
+(* ... and from source TEXT: the tokens of the printed program, spelled and separated by single spaces
+   (or by any white space and comments), lex and parse back to exactly the program - the lexer's and the
+   parser's round trips composed.  `lexable` asks that the printed token list is one the lexer can
+   produce (it fails only for `/` directly after a string literal or the like, where the lexer reads a
+   regular expression). *)
+Theorem C13_parse_source : forall (pf : str -> option (option float)) (p : program),
+  printable p = true -> floats_known pf p -> (prog_depth p <=? max_depth) = true ->
+  lexable (show_program p) = true ->
+  parse_script pf max_depth (TextProofs.source p) = ParseOk p.
+Proof. exact TextProofs.parse_source. Qed.
+
+Theorem C13_parse_source_example :
+  parse_script PrinterProofs.Demo.pf0 max_depth (TextProofs.source PrinterProofs.Demo.demo) = ParseOk PrinterProofs.Demo.demo.
+Proof. exact TextProofs.demo_parse_source. Qed.
